@@ -12,11 +12,18 @@ ACTIONS = ["Create", "GetWaterfall", "CopyOp", "PickleOp", "Mutate", "ShiftTs", 
 def run_for(ctx, pid):
     ctx.assume("pixel identities 1000*(row+1) + world channel (exact in float32); blimpy.Waterfall is the independent file "
                "reader; start time compared at 1e-4 s (MJD header precision); frequencies on the grid at 1e-3 channel")
-    ops = ctx.pick(3, 5 if pid == "C03" else 4)          # the deepest exhaustive run once (C03); C17 / C12 re-check to depth 4
+    ops = ctx.pick(3, 4)
     cfg = tlc.cfg_with("FrameLife_MC.cfg", {"MaxOps": str(ops)}, ctx.outdir)
     res = tlc.run(MODULE, cfg, ctx.outdir, workers=8, coverage=True, timeout=2400)
     ctx.add_tlc(res, "FrameLife_MC MaxOps=%d" % ops, "M")
     ctx.tlc_violation(res, MODULE, "FrameLife_MC")
+    if not ctx.quick():
+        # deeper exhaustive runs over the two small alphabets (the full alphabet to depth 5 is 13 million states / 36 minutes)
+        for focus, deep in (("save", 10), ("derive", 8)) if pid == "C03" else ((("derive", 8),) if pid == "C17" else ()):
+            cfg2 = tlc.cfg_with("FrameLife_MC.cfg", {"MaxOps": str(deep), "Focus": '"%s"' % focus, "MaxCreate": "2" if focus == "save" else "1"}, ctx.outdir)
+            r2 = tlc.run(MODULE, cfg2, ctx.outdir, workers=8, timeout=2400)
+            ctx.add_tlc(r2, "FrameLife_MC Focus=%s MaxOps=%d" % (focus, deep), "M")
+            ctx.tlc_violation(r2, MODULE, "FrameLife_MC Focus=%s" % focus)
     dead = [a for a in ACTIONS if res.coverage.get(a, (0, 0))[1] == 0]
     if dead:
         raise RuntimeError("vacuity: actions never taken: %s" % dead)
